@@ -43,6 +43,7 @@ THEOREMS = [_T + t for t in [
     "segmented_no_skipped_slot",
     "segmented_segment_list",
     "segmented_fifo_exactly_once",
+    "C04_all_refine",
     "heap_all_sequences",
     "Heap.push_inv",
     "Heap.pop_inv",
